@@ -514,6 +514,9 @@ impl<'a> OverlappingFieldsCanBeMerged<'a> {
 
         // (I) Then collect conflicts between the first collection of fields and
         // those referenced by each fragment name associated with the second.
+        // The fragments already compared are remembered per collection of fields:
+        // a fragment visited while comparing other fields says nothing about these.
+        let mut visited_fragments1 = Vec::new();
         for fragment_name in &fragment_names2 {
             self.collect_conflicts_between_fields_and_fragment(
                 schema,
@@ -521,12 +524,13 @@ impl<'a> OverlappingFieldsCanBeMerged<'a> {
                 &field_map1,
                 fragment_name,
                 mutually_exclusive,
-                visited_fragments,
+                &mut visited_fragments1,
             );
         }
 
         // (I) Then collect conflicts between the second collection of fields and
         // those referenced by each fragment name associated with the first.
+        let mut visited_fragments2 = Vec::new();
         for fragment_name in &fragment_names1 {
             self.collect_conflicts_between_fields_and_fragment(
                 schema,
@@ -534,7 +538,7 @@ impl<'a> OverlappingFieldsCanBeMerged<'a> {
                 &field_map2,
                 fragment_name,
                 mutually_exclusive,
-                visited_fragments,
+                &mut visited_fragments2,
             );
         }
 
